@@ -546,6 +546,27 @@ func TestVerifC16(t *testing.T) {
 	s.dump()
 	s.validate(c16Route{pfx: mk4("10.1.0.0/16"), localAS: 65500, hasAttr: true, segs: seqTo(65500), shape: "seq"})
 
+	// a validation condition after a modifying action sees the route as modified: a locally sourced
+	// route, Invalid under the local AS, gets the customer AS prepended and must then be Valid
+	s.reset()
+	s.add(c16Rec{mk4("10.10.0.0/24"), 24, 65100, 0})
+	s.dump()
+	for _, split := range [][]int{{3}, {1, 2}, {1, 1, 1}} {
+		for _, attr := range []bool{true, false} {
+			s.chain(c16Chain{rt: c16Route{pfx: mk4("10.10.0.0/24"), localAS: 65500, hasAttr: attr, segs: []c16Seg{}, shape: "empty"},
+				split: split, stmts: []c16Stmt{{cond: 2, prep: 1, asn: 65100, rep: 1}, {cond: 1, disp: 1}, {cond: 0, disp: 2}}})
+		}
+	}
+	// … and the other way round: Valid under the local AS until a foreign AS is prepended
+	s.reset()
+	s.add(c16Rec{mk4("10.10.0.0/24"), 24, 65500, 0})
+	s.chain(c16Chain{rt: c16Route{pfx: mk4("10.10.0.0/24"), localAS: 65500, hasAttr: true, segs: []c16Seg{}, shape: "empty"},
+		split: []int{2, 1}, stmts: []c16Stmt{{cond: 1, prep: 1, asn: 300, rep: 2, other: 1}, {cond: 1, disp: 2}, {cond: 2, disp: 1}}})
+	// not-found → valid is impossible by prepending (coverage does not change); MED / LOCAL_PREF / next hop
+	// / ORIGIN / community actions between two conditions change nothing
+	s.chain(c16Chain{rt: c16Route{pfx: mk4("10.10.0.0/24"), localAS: 65500, hasAttr: true, segs: seqTo(65500), shape: "seq"},
+		split: []int{4}, stmts: []c16Stmt{{cond: 1, other: 1}, {cond: 1, other: 2}, {cond: 1, other: 3, prep: 2, rep: 1}, {cond: 1, other: 4, disp: 1}}})
+
 	// ---- generated histories ----
 	cases := 4000
 	if o.thorough {
@@ -607,10 +628,266 @@ func TestVerifC16(t *testing.T) {
 						o.sample(fmt.Sprintf("table of %d records; %s", len(s.truth), rt.line()))
 					}
 				}
+				for j := r.intn(3); j > 0; j-- {
+					s.chain(s.genChain(r, pool))
+				}
 			}
 		}
 		o.stat(fmt.Sprintf("table_size_%s", c16Bucket(len(s.truth))), 1)
 	}
+}
+
+// ---- validation conditions inside policy chains ------------------------------------------------
+
+// one statement: an optional rpki condition, a marking community (so that the statements that
+// matched can be read off the resulting route), an optional AS_PATH prepend, an optional
+// action that must not matter to validation, a disposition
+type c16Stmt struct {
+	cond  int // 0 none, 1 valid, 2 invalid, 3 not-found
+	prep  int // 0 none, 1 fixed AS, 2 last-as
+	asn   uint32
+	rep   uint8
+	other int // 0 none, 1 MED, 2 LOCAL_PREF, 3 next hop, 4 ORIGIN
+	disp  int // 0 none, 1 accept, 2 reject
+}
+
+type c16Chain struct {
+	rt     c16Route
+	confed bool  // the policy runs for a confederation member (prepends AS_CONFED_SEQUENCE)
+	split  []int // statements per policy
+	stmts  []c16Stmt
+}
+
+var c16CondResult = []oc.RpkiValidationResultType{"", oc.RPKI_VALIDATION_RESULT_TYPE_VALID,
+	oc.RPKI_VALIDATION_RESULT_TYPE_INVALID, oc.RPKI_VALIDATION_RESULT_TYPE_NOT_FOUND}
+
+func (s *c16State) genChain(r *vRand, pool []c16Pfx) c16Chain {
+	ch := c16Chain{rt: s.genRoute(r, pool), confed: r.chance(12)}
+	ch.rt.kind = 0
+	// ASes that make a difference: those of the records covering the route, the local AS, a stranger
+	asns := []uint32{ch.rt.localAS, 300}
+	for _, rec := range s.truth {
+		if rec.pfx.fam == ch.rt.pfx.fam && rec.pfx.p.Bits() <= ch.rt.pfx.p.Bits() && rec.pfx.p.Contains(ch.rt.pfx.p.Addr()) {
+			asns = append(asns, rec.as, rec.as)
+		}
+	}
+	if r.chance(55) { // routes whose origin is the local AS until something is prepended
+		switch r.intn(4) {
+		case 0:
+			ch.rt.hasAttr, ch.rt.segs, ch.rt.shape = false, nil, "no-attr"
+		case 1, 2:
+			ch.rt.hasAttr, ch.rt.segs, ch.rt.shape = true, []c16Seg{}, "empty"
+		default:
+			ch.rt.hasAttr, ch.rt.segs, ch.rt.shape = true, []c16Seg{{bgp.BGP_ASPATH_ATTR_TYPE_CONFED_SEQ, []uint32{65001}}}, "confed-seq"
+		}
+	}
+	n := 2 + r.intn(4)
+	for i := 0; i < n; i++ {
+		st := c16Stmt{cond: r.pick(0, 1, 1, 2, 2, 3, 3), other: r.pick(0, 0, 1, 2, 3, 4)}
+		switch r.intn(5) {
+		case 0, 1:
+			st.prep, st.asn, st.rep = 1, asns[r.intn(len(asns))], uint8(r.pick(1, 1, 2, 3))
+			if r.chance(4) {
+				st.rep = 254 // the 255-AS limit of a segment
+			}
+		case 2:
+			st.prep, st.rep = 2, uint8(r.pick(1, 2))
+		}
+		if i == n-1 {
+			st.disp = r.pick(0, 1, 1, 2)
+		} else if r.chance(8) {
+			st.disp = r.pick(1, 2)
+		}
+		ch.stmts = append(ch.stmts, st)
+	}
+	for left := n; left > 0; {
+		k := 1 + r.intn(left)
+		ch.split = append(ch.split, k)
+		left -= k
+	}
+	return ch
+}
+
+func (ch c16Chain) line() string {
+	var sb strings.Builder
+	b := 0
+	if ch.confed {
+		b = 1
+	}
+	fmt.Fprintf(&sb, "tchain %s %d %d %d", ch.rt.pfx.String(), ch.rt.localAS, b, len(ch.rt.segs))
+	for _, sg := range ch.rt.segs {
+		fmt.Fprintf(&sb, " %d %d", sg.typ, len(sg.as))
+		for _, a := range sg.as {
+			fmt.Fprintf(&sb, " %d", a)
+		}
+	}
+	for _, st := range ch.stmts {
+		fmt.Fprintf(&sb, " %d %d %d %d %d", st.cond, st.prep, st.asn, st.rep, st.disp)
+	}
+	return sb.String()
+}
+
+func c16ShowPath(p *Path) string {
+	var segs []string
+	if ap := p.GetAsPath(); ap != nil {
+		for _, param := range ap.Value {
+			as := make([]string, 0, len(param.GetAS()))
+			for _, a := range param.GetAS() {
+				as = append(as, fmt.Sprint(a))
+			}
+			segs = append(segs, fmt.Sprintf("%d:%s", param.GetType(), strings.Join(as, ",")))
+		}
+	}
+	return strings.Join(segs, ";")
+}
+
+// the route of a path, in the harness' own terms (for the brute-force RFC 6811 oracle)
+func c16RouteOf(p *Path, rt c16Route) c16Route {
+	out := c16Route{pfx: rt.pfx, localAS: rt.localAS, hasAttr: p.GetAsPath() != nil}
+	if ap := p.GetAsPath(); ap != nil {
+		for _, param := range ap.Value {
+			out.segs = append(out.segs, c16Seg{param.GetType(), append([]uint32{}, param.GetAS()...)})
+		}
+	}
+	return out
+}
+
+func c16Marks(p *Path) []int {
+	var m []int
+	for _, c := range p.GetCommunities() {
+		if c>>16 == 65000 {
+			m = append(m, int(c&0xffff))
+		}
+	}
+	sort.Ints(m)
+	return m
+}
+
+var c16ChainSeq int
+
+func (s *c16State) chain(ch c16Chain) {
+	o := s.o
+	logger := slog.New(slog.DiscardHandler)
+	c16ChainSeq++
+	// ---- build the real policies ----
+	var pds []oc.PolicyDefinition
+	k := 0
+	for pi, n := range ch.split {
+		pd := oc.PolicyDefinition{Name: fmt.Sprintf("c16p%d_%d", c16ChainSeq, pi)}
+		for j := 0; j < n; j++ {
+			st := ch.stmts[k]
+			k++
+			cs := oc.Statement{Name: fmt.Sprintf("c16s%d_%d", c16ChainSeq, k)}
+			cs.Conditions.BgpConditions.RpkiValidationResult = c16CondResult[st.cond]
+			cs.Actions.BgpActions.SetCommunity = oc.SetCommunity{Options: "add",
+				SetCommunityMethod: oc.SetCommunityMethod{CommunitiesList: []string{fmt.Sprintf("65000:%d", k)}}}
+			switch st.prep {
+			case 1:
+				cs.Actions.BgpActions.SetAsPathPrepend = oc.SetAsPathPrepend{As: fmt.Sprint(st.asn), RepeatN: st.rep}
+			case 2:
+				cs.Actions.BgpActions.SetAsPathPrepend = oc.SetAsPathPrepend{As: "last-as", RepeatN: st.rep}
+			}
+			switch st.other {
+			case 1:
+				cs.Actions.BgpActions.SetMed = "+10"
+			case 2:
+				cs.Actions.BgpActions.SetLocalPref = 333
+			case 3:
+				cs.Actions.BgpActions.SetNextHop = "192.0.2.77"
+			case 4:
+				cs.Actions.BgpActions.SetRouteOrigin = oc.BGP_ORIGIN_ATTR_TYPE_INCOMPLETE
+			}
+			switch st.disp {
+			case 1:
+				cs.Actions.RouteDisposition = oc.ROUTE_DISPOSITION_ACCEPT_ROUTE
+			case 2:
+				cs.Actions.RouteDisposition = oc.ROUTE_DISPOSITION_REJECT_ROUTE
+			}
+			pd.Statements = append(pd.Statements, cs)
+		}
+		pds = append(pds, pd)
+	}
+	rp := NewRoutingPolicy(logger)
+	if err := rp.reload(oc.RoutingPolicy{PolicyDefinitions: pds}); err != nil {
+		s.o.t.Fatalf("policy reload: %v", err)
+	}
+	refs := make([]*oc.PolicyDefinition, len(pds))
+	for i := range pds {
+		refs[i] = &pds[i]
+	}
+	if err := rp.SetPolicyAssignment("c16", POLICY_DIRECTION_IMPORT, refs, ROUTE_TYPE_ACCEPT); err != nil {
+		s.o.t.Fatalf("policy assignment: %v", err)
+	}
+	info := &PeerInfo{LocalAS: ch.rt.localAS, AS: 64999, Confederation: ch.confed}
+	mkOptions := func() *PolicyOptions { return &PolicyOptions{Info: info, Validate: s.rt.Validate} }
+
+	// ---- the real chain: one ApplyPolicy call ----
+	path := ch.rt.path()
+	after := rp.ApplyPolicy("c16", POLICY_DIRECTION_IMPORT, path, mkOptions())
+	got := "reject"
+	if after != nil {
+		got = strings.Join(strings.Fields(fmt.Sprintf("marks %s | path %s | accept",
+			strings.Trim(fmt.Sprint(c16Marks(after)), "[]"), c16ShowPath(after))), " ")
+	}
+
+	// ---- oracle: every statement on its own, with fresh options, on the route as modified so far;
+	// each validation condition must agree with ROATable.Validate of that route and with RFC 6811 ----
+	cur := ch.rt.path()
+	want, ended := "", false
+	k = 0
+	for pi := range pds {
+		pol := rp.policyMap[pds[pi].Name]
+		for _, stmt := range pol.Statements {
+			st := ch.stmts[k]
+			k++
+			hitWant := true
+			if st.cond != 0 {
+				v := s.rt.Validate(cur)
+				hitWant = v != nil && v.Status == c16CondResult[st.cond]
+				if spec, ok := c16SpecStatus(s.truth, c16RouteOf(cur, ch.rt)); ok && v != nil && spec != v.Status {
+					o.fail("rfc6811-status", map[string]any{"ops": append([]string{}, s.trace...), "chain": ch.line(), "statement": k,
+						"got": string(v.Status), "rfc6811": string(spec)})
+				}
+				o.stat(fmt.Sprintf("chain_cond_%s_%v", c16CondResult[st.cond], hitWant), 1)
+			}
+			if hit := stmt.Evaluate(cur, mkOptions()); hit != hitWant {
+				o.fail("rpki-condition-verdict", map[string]any{"ops": append([]string{}, s.trace...), "chain": ch.line(), "statement": k,
+					"condition_says": hit, "validate_of_the_route_says": hitWant})
+			}
+			before := s.rt.Validate(cur)
+			res, next := stmt.Apply(logger, cur, mkOptions())
+			if hitWant && st.prep != 0 {
+				if a := s.rt.Validate(next); before != nil && a != nil && a.Status != before.Status {
+					o.stat("chain_modification_changes_verdict", 1)
+				}
+			}
+			cur = next
+			if res != ROUTE_TYPE_NONE {
+				ended = true
+				if res == ROUTE_TYPE_REJECT {
+					want = "reject"
+				}
+				break
+			}
+		}
+		if ended {
+			break
+		}
+	}
+	if want == "" {
+		want = strings.Join(strings.Fields(fmt.Sprintf("marks %s | path %s | accept",
+			strings.Trim(fmt.Sprint(c16Marks(cur)), "[]"), c16ShowPath(cur))), " ")
+	}
+	if got != want {
+		o.fail("policy-verdict-stale-after-modification", map[string]any{"ops": append([]string{}, s.trace...), "chain": ch.line(),
+			"one_ApplyPolicy_call": got, "statement_by_statement_on_the_route_as_modified": want})
+	}
+	if got == "reject" {
+		got = "marks | path | reject" // a rejected route shows neither marks nor path
+	}
+	o.ask(got, "%s", ch.line())
+	o.stat("chain", 1)
+	o.stat(fmt.Sprintf("chain_policies_%d", len(ch.split)), 1)
 }
 
 func c16Bucket(n int) string {
